@@ -92,6 +92,7 @@ fn blp_drive(_s: &Seed, data: &[u8], p: &mut Probe) {
             std::hint::black_box((n, img.compression_ratio()))
         });
     }
+    p.seed_valid = Some(p.all_ok);
     // the other two ways in: the buffer loader, and the BLP0 parser that asks a callback for the external mipmap files
     // (offered tails of the same bytes as "files")
     if let Some(img) = p.call("load_blp_from_buf", || wow_blp::parser::load_blp_from_buf(data)) {
@@ -332,6 +333,7 @@ fn dbc_drive(s: &Seed, data: &[u8], p: &mut Probe) {
             });
         }
     }
+    p.seed_valid = Some(p.all_ok);
     // the other access paths over the same bytes: lazy, parallel, schema discovery, memory-mapped
     let header = parser.header().clone();
     let block = p.call("StringBlock::parse", || wow_cdbc::StringBlock::parse(&mut Cursor::new(data), header.string_block_offset(), header.string_block_size));
